@@ -16,34 +16,6 @@ Inductive outcome : Type :=
 | OutOfFuel
 | Stuck.
 
-(* ---- the total order of comparable values ---- *)
-Fixpoint v_compare (a b : value) {struct a} : option comparison :=
-  match a, b with
-  | VInt x, VInt y => Some (Z.compare x y)
-  | VMutez x, VMutez y => Some (Z.compare x y)
-  | VStr x, VStr y => Some (bytes_cmp x y)
-  | VBool x, VBool y => Some (match x, y with
-                              | false, true => Lt
-                              | true, false => Gt
-                              | _, _ => Eq
-                              end)
-  | VUnit, VUnit => Some Eq
-  | VPair a1 a2, VPair b1 b2 =>
-      match v_compare a1 b1 with
-      | Some Eq => v_compare a2 b2
-      | r => r
-      end
-  | VNone, VNone => Some Eq
-  | VNone, VSome _ => Some Lt
-  | VSome _, VNone => Some Gt
-  | VSome x, VSome y => v_compare x y
-  | VLeft x, VLeft y => v_compare x y
-  | VLeft _, VRight _ => Some Lt
-  | VRight _, VLeft _ => Some Gt
-  | VRight x, VRight y => v_compare x y
-  | _, _ => None
-  end.
-
 Definition Z_of_comparison (c : comparison) : Z :=
   match c with Lt => (-1)%Z | Eq => 0%Z | Gt => 1%Z end.
 
@@ -69,6 +41,80 @@ Fixpoint concat_strs (l : list value) : option bytes :=
   | [] => Some []
   | VStr s :: r => option_map (fun t => s ++ t) (concat_strs r)
   | _ => None
+  end.
+
+(* ---- sets and maps: strictly sorted lists (of elements / of entries VPair key value) ---- *)
+Fixpoint v_set_mem (x : value) (l : list value) : option bool :=
+  match l with
+  | [] => Some false
+  | y :: r => match v_compare x y with
+              | Some Eq => Some true
+              | Some _ => v_set_mem x r
+              | None => None
+              end
+  end.
+Fixpoint v_set_add (x : value) (l : list value) : option (list value) :=
+  match l with
+  | [] => Some [x]
+  | y :: r => match v_compare x y with
+              | Some Lt => Some (x :: y :: r)
+              | Some Eq => Some (y :: r)
+              | Some Gt => option_map (cons y) (v_set_add x r)
+              | None => None
+              end
+  end.
+Fixpoint v_set_remove (x : value) (l : list value) : option (list value) :=
+  match l with
+  | [] => Some []
+  | y :: r => match v_compare x y with
+              | Some Eq => Some r
+              | Some _ => option_map (cons y) (v_set_remove x r)
+              | None => None
+              end
+  end.
+Fixpoint v_map_get (k : value) (l : list value) : option (option value) :=
+  match l with
+  | [] => Some None
+  | VPair k' v :: r => match v_compare k k' with
+                       | Some Eq => Some (Some v)
+                       | Some _ => v_map_get k r
+                       | None => None
+                       end
+  | _ :: _ => None
+  end.
+Fixpoint v_map_set (k v : value) (l : list value) : option (list value) :=
+  match l with
+  | [] => Some [VPair k v]
+  | VPair k' v' :: r => match v_compare k k' with
+                        | Some Lt => Some (VPair k v :: VPair k' v' :: r)
+                        | Some Eq => Some (VPair k v :: r)
+                        | Some Gt => option_map (cons (VPair k' v')) (v_map_set k v r)
+                        | None => None
+                        end
+  | _ :: _ => None
+  end.
+Fixpoint v_map_remove (k : value) (l : list value) : option (list value) :=
+  match l with
+  | [] => Some []
+  | VPair k' v' :: r => match v_compare k k' with
+                        | Some Eq => Some r
+                        | Some _ => option_map (cons (VPair k' v')) (v_map_remove k r)
+                        | None => None
+                        end
+  | _ :: _ => None
+  end.
+Definition v_map_update (k : value) (ov : value) (l : list value) : option (list value) :=
+  match ov with
+  | VSome v => v_map_set k v l
+  | VNone => v_map_remove k l
+  | _ => None
+  end.
+Definition v_of_option (o : option value) : value := match o with Some v => VSome v | None => VNone end.
+(* MAP on a map keeps the keys *)
+Fixpoint v_rekey (entries ys : list value) : list value :=
+  match entries, ys with
+  | e :: r, y :: s => VPair (v_key e) y :: v_rekey r s
+  | _, _ => []
   end.
 
 Definition zcmp (i : instr) (z : Z) : bool :=
@@ -115,9 +161,38 @@ Definition ref_simple (e : env) (i : instr) (s : list value) : outcome :=
   | I_CONS => match s with a :: VList l :: r => Done (VList (a :: l) :: r) | _ => Stuck end
   | I_SIZE => match s with
               | VStr x :: r => Done (VInt (Z.of_nat (length x)) :: r)
-              | VList l :: r => Done (VInt (Z.of_nat (length l)) :: r)
+              | VList l :: r | VSet l :: r | VMap l :: r => Done (VInt (Z.of_nat (length l)) :: r)
               | _ => Stuck
               end
+  | I_EMPTY_SET _ => Done (VSet [] :: s)
+  | I_EMPTY_MAP _ _ => Done (VMap [] :: s)
+  | I_MEM => match s with
+             | x :: VSet l :: r => match v_set_mem x l with Some b => Done (VBool b :: r) | None => Stuck end
+             | x :: VMap l :: r => match v_map_get x l with
+                                   | Some o => Done (VBool (match o with Some _ => true | None => false end) :: r)
+                                   | None => Stuck
+                                   end
+             | _ => Stuck
+             end
+  | I_GET => match s with
+             | x :: VMap l :: r => match v_map_get x l with Some o => Done (v_of_option o :: r) | None => Stuck end
+             | _ => Stuck
+             end
+  | I_UPDATE => match s with
+                | x :: VBool b :: VSet l :: r =>
+                    match (if b then v_set_add x l else v_set_remove x l) with Some l' => Done (VSet l' :: r) | None => Stuck end
+                | x :: ov :: VMap l :: r =>
+                    match v_map_update x ov l with Some l' => Done (VMap l' :: r) | None => Stuck end
+                | _ => Stuck
+                end
+  | I_GET_AND_UPDATE => match s with
+                        | x :: ov :: VMap l :: r =>
+                            match v_map_get x l, v_map_update x ov l with
+                            | Some o, Some l' => Done (v_of_option o :: VMap l' :: r)
+                            | _, _ => Stuck
+                            end
+                        | _ => Stuck
+                        end
   | I_ADD => match s with
              | VInt a :: VInt b :: r => Done (VInt (a + b) :: r)
              | VMutez a :: VMutez b :: r => mutez_result (a + b) r
@@ -292,7 +367,7 @@ Fixpoint ref_eval (e : env) (fuel : nat) (i : instr) (s : list value) {struct fu
                          | _ => Stuck
                          end
       | I_ITER c => match s with
-                    | VList l :: r => ref_iter (ref_eval e f c) l r
+                    | VList l :: r | VSet l :: r | VMap l :: r => ref_iter (ref_eval e f c) l r   (* a map yields its entries as pairs *)
                     | _ => Stuck
                     end
       | I_MAP c => match s with
@@ -300,6 +375,10 @@ Fixpoint ref_eval (e : env) (fuel : nat) (i : instr) (s : list value) {struct fu
                                      | MDone ys s1 => Done (VList ys :: s1)
                                      | MStop o => o
                                      end
+                   | VMap l :: r => match ref_map (ref_eval e f c) l r with
+                                    | MDone ys s1 => Done (VMap (v_rekey l ys) :: s1)
+                                    | MStop o => o
+                                    end
                    | _ => Stuck
                    end
       | _ => ref_simple e i s
